@@ -32,8 +32,10 @@ TTYPE = "state * list (tqry * tans)"
 
 
 def gen_trav_case(rng, search=False):
-    case = _gen_trav_case(rng, search)
-    case["caching"] = rng.random() < 0.5          # the answers must not depend on the neighbour memo being in use
+    eph = (not search) and rng.random() < 0.3     # every call gets a freshly created filter callable (one setting, several filters)
+    case = _gen_trav_case(rng, search, eph)
+    case["caching"] = True if eph else rng.random() < 0.5    # the answers must not depend on the neighbour memo being in use
+    case["ephemeral"] = eph
     if rng.random() < 0.5:
         case["ops2"] = gen_phase2(rng, case, case.pop("_uid"), case.pop("_vids"), case.pop("_lids"))
     else:
@@ -42,7 +44,7 @@ def gen_trav_case(rng, search=False):
     return case
 
 
-def _gen_trav_case(rng, search=False):
+def _gen_trav_case(rng, search=False, eph=False):
     ops, vids, lids, uid = Q.gen_graph_ops(rng, nv=rng.randint(1, 6), nl=rng.randint(0, 9), odd=rng.choice([0.0, 0.0, 0.15]))
     queries = []
     starts = [rng.choice(vids) for _ in range(2)]
@@ -55,10 +57,15 @@ def _gen_trav_case(rng, search=False):
                 for t in ("BFS", "DSR", "DSI"):
                     queries.append([t, uni, st, attr, val])
         return {"ops": ops, "queries": queries, "attrs": attrs, "falsy": rng.random() < 0.5, "_uid": uid, "_vids": vids, "_lids": lids}
-    for st in starts:
+    d0, u0 = rng.choice(Q.DIRS), rng.choice(["UNb", "UNon"])
+    if eph:
+        starts = [starts[0], starts[0]]
+    for gi, st in enumerate(starts):
         for uni in ([uid, None] if uid is not None else [None]):
             d, u = rng.choice(Q.DIRS), rng.choice(Q.UNKS + ["UNb", "UNon"])
             fv = rng.choice([None, None, 0, 2, 3, 4])
+            if eph:      # one start, one direction / unknown setting, a different selective filter for every group of calls
+                d, u, fv = d0, u0, [2, 0, 1, 2][(gi * 2 + (uni is None)) % 4]
             for fr in (None, rng.choice([0, 1, 2])):
                 for t in ("BFT", "DFR", "DFI"):
                     queries.append([t, uni, st, d, u, fv, fr])
@@ -82,6 +89,7 @@ def observe_trav(case):
     try:
         from edgegraph.structure import Vertex as _V
         _V.NEIGHBOR_CACHING = bool(case.get("caching"))
+        w.ephemeral_filters = bool(case.get("ephemeral"))
         first = _observe_phase(w, case, case["ops"])
         if first is None:
             return None
